@@ -90,8 +90,6 @@ def wt(wd):
     os.makedirs(wd + '/out', exist_ok=True)
 if kind == 'mutants':
     for p in props:
-        if p['id'] == 'C11':
-            continue
         wd = base + '/' + p['id']
         wt(wd)
         open(wd + '/TASK.md', 'w').write(T.format(wd=wd, base=base, title=p['title'], statement=p['statement'], quant=p['quantifier']['text'], files=', '.join(p['anchors']['files'])))
